@@ -157,7 +157,7 @@ let sem_chain (e : Sexp.t) : Sexp.t =
         let text = match t with S x -> x | _ -> bad "sem_chain: string expected" in
         let in_class = match List.nth_opt models i with Some m -> not (M.ProblemPrint.ident_ok m) | None -> false in
         match (try Ok (Tff_problem_read.read text) with Tff_problem_read.Read_error msg -> Error msg) with
-        | Error msg -> if not in_class then fail i (L [ A "unreadable"; S msg ])
+        | Error _ -> ()              (* an unreadable text is C09's business (sem_problem_wt) *)
         | Ok _ when in_class -> ()   (* identifier clashes (C09 IdentClass): constants do not denote themselves *)
         | Ok tp ->
           let starts pre s = String.length s >= String.length pre && String.sub s 0 (String.length pre) = pre in
